@@ -154,6 +154,10 @@ class _Matcher:
                         and z3.is_int_value(g.arg(1)) and g.arg(1).as_long() == 0 and _is_seq(g.arg(0).arg(0)):
                     t = g.arg(0).arg(0)          # len(t) <= 0  /  len(t) == 0   =>   t == []
                     self.add_alias(t, z3.Empty(t.sort()))
+                elif (z3.is_ge(g) or z3.is_eq(g)) and z3.is_app(g.arg(1)) and g.arg(1).decl().kind() == z3.Z3_OP_SEQ_LENGTH \
+                        and z3.is_int_value(g.arg(0)) and g.arg(0).as_long() == 0 and _is_seq(g.arg(1).arg(0)):
+                    t = g.arg(1).arg(0)          # 0 >= len(t)  /  0 == len(t)   =>   t == []
+                    self.add_alias(t, z3.Empty(t.sort()))
                 elif z3.is_not(g) and z3.is_app(g.arg(0)) and (z3.is_gt(g.arg(0)) or z3.is_ge(g.arg(0))):
                     h = z3.simplify(g)
                     if not z3.is_not(h):
